@@ -21,7 +21,7 @@ RULE = (
     "one map per configuration (default incl. Submount / Subdomain / per-method rules of one endpoint / websocket "
     "rules, defaults twins declared after the general rule, variable subdomain, host_matching incl. host rules in "
     "a Submount, default_subdomain, sort_parameters, rule factories: EndpointPrefix, RuleTemplate with templated "
-    "defaults, nested Submount / Subdomain / EndpointPrefix) with one rule per converter form; values: every string of <= 2 atoms over a 27-atom alphabet plus every string of 3 atoms over the 10 critical atoms (thorough: <= 3 atoms over all 27) "
+    "defaults, nested Submount / Subdomain / EndpointPrefix) with one rule per converter form; values: every string of <= 2 atoms over a 27-atom alphabet plus every string of 3 atoms over the 12 critical atoms (thorough: <= 3 atoms over all 27) "
     "(letters, non-ASCII, astral, space, every URL delimiter, '%', '%2F', '.', backslash, control characters "
     "incl. newline) filtered by the converter's documented domain, ints incl. signed / fixed_digits, floats with "
     "positional str(), UUIDs, paths of 2-3 such segments; each x script_name {/, /app, /app/} x force_external x "
@@ -49,7 +49,7 @@ from werkzeug.routing.exceptions import RequestRedirect  # noqa: E402
 
 ATOMS = ["a", "é", " ", ";", "?", "#", "%", "+", "&", "=", ":", "@", "~", '"', "<", "𝄞", "%2F", ".", "\\",
          "\n", "\r", "\t", "\x00", "[", "|", "{", "\u2028"]
-CRIT = ["a", "é", " ", "?", "#", "%", "%2F", ";", "+", "\n"]
+CRIT = ["a", "é", " ", "?", "#", "%", "%2F", ";", "+", "\n", ".", "𝄞"]
 SEG_ATOMS = ["a", "é", " ", "?", "#", "%", "+", ";", "%2F", ".", "\n", "𝄞"]
 
 U1 = uuid.UUID(int=1)
@@ -65,7 +65,7 @@ def paths(tier):
     single = list(gen.strings(ATOMS, 1, 1))
     for a, b in itertools.product(single, repeat=2):
         out.append(a + "/" + b)
-    for t in itertools.product(SEG_ATOMS[:10] if tier == "quick" else SEG_ATOMS, repeat=3):
+    for t in itertools.product(SEG_ATOMS, repeat=3):
         out.append("/".join(t))
     out += ["a//b", "a/b/c/d", "x y/é", "a"] + single
     two = list(gen.strings(SEG_ATOMS, 2, 2))
@@ -107,8 +107,8 @@ def value_sets(tier):
         "list": [(1, 10), (2, 10), (1, 5), (3, 7)], "k": ["en", "é", "a b"], "n": [1, 2, 10],
         "imm": [3, 5, 9],
         # same option names, different option values: values valid for exactly one rule of each pair
-        "l2": [v for v in S2 if len(v) == 2][:80], "l5": CH5[:400] if not T else CH5, "n2": [v for v in S2 if len(v) >= 2][:80] + CH5[:20],
-        "n4": (CH5[:300] if not T else CH5) + ["abcd", "é ;?"], "x2": [v for v in S2 if len(v) <= 2][:80], "x12": (CH5[:300] if not T else CH5) + ["abc", "a" * 12],
+        "l2": [v for v in S2 if len(v) == 2][:80], "l5": CH5 if T else CH5[:1000], "n2": [v for v in S2 if len(v) >= 2][:80] + CH5[:20],
+        "n4": (CH5 if T else CH5[:1000]) + ["abcd", "é ;?"], "x2": [v for v in S2 if len(v) <= 2][:80], "x12": (CH5 if T else CH5[:1000]) + ["abc", "a" * 12],
         "b24": ["ab", "abc", "abcd", "é ;?"], "b13": ["a", "ab", "abc", "%2F"],
         "d3": [0, 7, 12, 999], "d8": [0, 7, 12345678, 99999999], "sd4": [0, -5, 123, -123, 9999],
         "sd6": [0, -5, 12345, -12345, 999999], "r29": [2, 5, 9], "r99": [10, 50, 99], "fr1": [0.5, 1.0, 1.5],
@@ -878,7 +878,7 @@ def finalize(R, tier):
     missing = need - R.used
     if missing:
         raise core.Broken(f"vacuity: never exercised {sorted(missing)}")
-    return {"bound": "strings <= 2 atoms + 3 atoms over 10 critical atoms, paths 2-3 segments" if tier == "quick" else "strings <= 3 atoms, paths 2-3 segments",
+    return {"bound": "strings <= 2 atoms + 3 atoms over 12 critical atoms, paths 2-3 segments" if tier == "quick" else "strings <= 3 atoms, paths 2-3 segments",
             "exhaustive": True,
             "explanation": "every (endpoint, value, script_name, force_external, scheme, extra query) combination of "
                            "the stated finite sets went through build -> deliver -> match -> build"}
